@@ -278,6 +278,12 @@ impl Driver {
         let cqueue = self.inner.completion();
         let has_entry = !cqueue.is_empty();
         for entry in cqueue {
+            #[cfg(compio_verif)]
+            crate::verif::emit(crate::verif::Event::Cqe {
+                user_data: entry.user_data(),
+                res: entry.result(),
+                flags: entry.flags(),
+            });
             match entry.user_data() {
                 Self::CANCEL => {}
                 Self::NOTIFY => {
@@ -345,6 +351,11 @@ impl Driver {
         let entry = entry.user_data(user_data as _);
         self.push_raw(entry)?; // if push failed, do not leak the key. Drop it upon return.
         self.in_flight.insert(user_data);
+        #[cfg(compio_verif)]
+        crate::verif::emit(crate::verif::Event::Submit {
+            id: user_data,
+            path: crate::verif::SubmitPath::Iour,
+        });
         key.into_raw();
         Ok(())
     }
@@ -421,9 +432,18 @@ impl Driver {
         let waker = self.waker();
         let completed = self.completed_tx.clone();
         // SAFETY: we're submitting into the driver, so it's safe to freeze here.
+        #[cfg(compio_verif)]
+        let verif_id = key.as_raw();
+        #[cfg(compio_verif)]
+        crate::verif::emit(crate::verif::Event::Submit {
+            id: verif_id,
+            path: crate::verif::SubmitPath::Blocking,
+        });
         let mut key = unsafe { key.freeze() };
         let mut closure = move || {
             let res = catch_unwind_io(AssertUnwindSafe(|| key.as_mut().carrier.call_blocking()));
+            #[cfg(compio_verif)]
+            crate::verif::emit(crate::verif::Event::PoolDone { id: verif_id });
             let _ = completed.send(Entry::new(key.into_inner(), res));
             waker.wake();
         };
@@ -495,6 +515,12 @@ impl Drop for Driver {
         let mut cqueue = self.inner.completion();
         cqueue.sync();
         for entry in cqueue {
+            #[cfg(compio_verif)]
+            crate::verif::emit(crate::verif::Event::Cqe {
+                user_data: entry.user_data(),
+                res: entry.result(),
+                flags: entry.flags(),
+            });
             match entry.user_data() {
                 Self::CANCEL | Self::NOTIFY => {}
                 key => {
@@ -513,6 +539,8 @@ impl Drop for Driver {
         // `malloc_consolidate(): unaligned fastbin chunk detected` /
         // `corrupted double-linked list` during thread shutdown.
         unsafe { ManuallyDrop::drop(&mut self.inner) };
+        #[cfg(compio_verif)]
+        crate::verif::emit(crate::verif::Event::RingClosed);
 
         // Free remaining in-flight keys. Safe now that the kernel is done.
         for user_data in self.in_flight.drain() {
